@@ -36,7 +36,7 @@ for id in $IDS; do
   r=$(cat $W/$id/result)
   if [ -d $V/seeded/$id ]; then
     own=$(echo $id | cut -d- -f1)
-    caught=$(echo "$r" | tr ' ' '\n' | grep ":1" | cut -d: -f1 | tr '\n' ' ')
+    caught=$(echo "$r" | tr ' ' '\n' | grep ":1$" | cut -d: -f1 | tr '\n' ' ')
     broken=$(echo "$r" | tr ' ' '\n' | grep -v ":[01]$" | grep : | tr '\n' ' ')
     if echo " $caught" | grep -q " $own "; then st=ok; else st=MISSED; bad=1; fi
     echo "seeded  $id $st caught-by: $caught ${broken:+not-decided: $broken}"
